@@ -474,6 +474,11 @@ def gen_e2e(ctx: Ctx):
     for _ in range(ctx.n(6, 60)):
         yield {"kind": "e2e", "gen": "scenario",
                "args": {"R": rng.choice([2, 3, 4]), "groups": rng.choice([1, 2, 3]), "seed": rng.randint(0, 10 ** 6), "kernels": rng.choice([1, 2])}}
+    # always present: two jobs of ONE rank in per-job directories with the same file name and the same sequence numbers
+    yield {"kind": "e2e", "gen": "custom", "spec": {"dirs": True, "files": [
+        {"rank": 0, "sends": [[1030, 20, 5, 1], [1030, 40, 20, 2], [7, 100, 5, 1]], "plain": [[60.5, 5]], "idless": False},
+        {"rank": 0, "sends": [[1030, 220, 5, 1], [1030, 260, 20, 3], [7, 300, 5, 2], [7, 330, 1, 0]], "plain": [], "idless": False},
+        {"rank": 1, "sends": [[1030, 25, 5, 0]], "plain": [[80.5, 1]], "idless": True}]}}
     for _ in range(ctx.n(14, 140)):
         nfiles = rng.choice([1, 2, 3, 4])
         ranks = [rng.choice([0, 1, 2]) for _ in range(nfiles)]
